@@ -157,6 +157,9 @@ type Evidence struct {
 // WriteEvidence writes /verif/evidence/<id>.json.
 func WriteEvidence(e *Evidence) error {
 	dir := filepath.Join(VerifDir(), "evidence")
+	if d := os.Getenv("VERIF_EVIDENCE_DIR"); d != "" {
+		dir = d
+	}
 	os.MkdirAll(dir, 0o755)
 	b, err := json.MarshalIndent(e, "", " ")
 	if err != nil {
@@ -183,6 +186,9 @@ type Replay struct {
 // WriteReplay stores r under /verif/replays and returns the path.
 func WriteReplay(r *Replay) string {
 	dir := filepath.Join(VerifDir(), "replays")
+	if d := os.Getenv("VERIF_REPLAY_DIR"); d != "" {
+		dir = d
+	}
 	os.MkdirAll(dir, 0o755)
 	b, _ := json.MarshalIndent(r, "", " ")
 	h := sha1.Sum(append([]byte(r.Property+r.Key), r.Scenario...))
